@@ -51,3 +51,12 @@ Definition check_c09 (c : list Z * list Z * list (list Z * Z * Z) * list Z) : Z 
           end
       end
   end.
+
+(* whole file, bytes only *)
+Definition check_file_bytes (c : program * (Z * list Z * bool)) : bool :=
+  let '(k, bs, d) := snd c in
+  match assemble_file gosk_encoder (fst c) with
+  | FDone img _ => list_eqb img bs
+  | FUnmodelled => true
+  | _ => false
+  end.
